@@ -30,145 +30,132 @@ import JL.Tie.op_all
 import JL.Tie.op_some
 import JL.Tie.op_none
 import JL.Tie.op_var
+import JL.Tie.cat
+import JL.Tie.merge
+import JL.Tie.op_missing
+import JL.Tie.op_missing_some
 import JL.Lemmas.TieF
 import JL.Lemmas.C05
 /-! tie: `tables`, as translated from the crate's current source, is the model's function - for every input -/
 namespace JL.Tie
 open JL JL.Lemmas.TieF
+set_option linter.unusedSimpArgs false  -- one tactic serves every row: which facts it uses depends on the row
+
+/-! The three theorems about the rows of the operator tables do not depend on the order of the rows, on their number (a row
+whose function is outside the translated subset is simply absent) or on the layout of the source: membership in the table is
+turned into a disjunction, the disjunction is split whatever its length, and EVERY row is closed by the same tactic:
+
+* `table_arity`: the arity descriptor of the (now concrete) key is computed from the regenerated `Tables` by evaluating
+  `lookupOp` on it (`whnf`), whatever it is;
+* `table_operands xs`: the operand list is taken apart as far as the arity bounds its length (`[]`, `[a]`, `[a, b]`, `[a, b, c]`,
+  longer), the impossible lengths are discarded by the arity;
+* the bound function is rewritten with the tie theorems of the functions it mentions (all of them are offered; side
+  conditions `n ≤ length` are computed on the explicit list), the model's `execEager` is unfolded at the concrete key, and
+  `simp [rs]` compares. -/
+
+/-- the arity of a concrete key: `hl : lookupOp KEY = some (kind, ar)` is evaluated and `ar` replaced by its value -/
+syntax "table_arity " ident : tactic
+macro_rules
+  | `(tactic| table_arity $hl) => `(tactic|
+      ((conv at $hl:ident => lhs; whnf)
+       (simp only [Option.some.injEq, Prod.mk.injEq, true_and, reduceCtorEq, false_and] at $hl:ident)
+       (subst $hl:ident)))
+
+/-- operand lists of the lengths the arity `hn : ar.isValidLen xs.length = true` admits, spelled out up to three items -/
+syntax "table_operands " ident ident : tactic
+macro_rules
+  | `(tactic| table_operands $xs $hn) => `(tactic|
+      (rcases $xs:ident with _ | ⟨a, _ | ⟨b, _ | ⟨c, _ | ⟨d, rest⟩⟩⟩⟩
+       all_goals try (simp [Arity.isValidLen] at $hn:ident <;> omega)))
+
+/-- the tie theorems of the functions the eager rows mention, as rewrite rules (those with a side condition on the number of
+operands fire on explicit operand lists) -/
+syntax "eager_row" : tactic
+macro_rules
+  | `(tactic| eager_row) => `(tactic|
+      ((try simp only [numResult_tie])
+       (try simp [num_lt, num_lte, num_gt, num_gte, num_minus, in_, substr2, substr3, merge, cat, parse_float_add, parse_float_mul,
+          abstract_max, abstract_min, abstract_div, abstract_mod, abstract_eq, abstract_ne, strict_eq, strict_ne, truthy])
+       all_goals (try (unfold execEager
+                       simp [rs, numResult_tie, in_, substr2, substr3, merge, cat, parse_float_add, parse_float_mul,
+                         abstract_max, abstract_min, abstract_div, abstract_mod, abstract_eq, abstract_ne, strict_eq, strict_ne,
+                         truthy]))
+       all_goals (try (split <;> simp_all [rs]))))
 
 /-- every operator the eager table binds to a translated function: applied to operands of an admitted count, that function is the
 model's `execEager` for that operator -/
 theorem eager_table (k : Str) (f : List Json → Option Json) (hk : (k, f) ∈ Gen.eagerTable) (ar : Arity) (hl : lookupOp k = some (.eager, ar))
     (items : List Json) (hn : ar.isValidLen items.length = true) : Rs.ok_or (f items) = execEager k items := by
-  simp only [Gen.eagerTable, List.mem_cons, Prod.mk.injEq, List.not_mem_nil, or_false] at hk
-  rcases hk with ⟨rfl, rfl⟩ | ⟨rfl, rfl⟩ | ⟨rfl, rfl⟩ | ⟨rfl, rfl⟩ | ⟨rfl, rfl⟩ | ⟨rfl, rfl⟩ | ⟨rfl, rfl⟩ | ⟨rfl, rfl⟩ | ⟨rfl, rfl⟩
-    | ⟨rfl, rfl⟩ | ⟨rfl, rfl⟩ | ⟨rfl, rfl⟩ | ⟨rfl, rfl⟩ | ⟨rfl, rfl⟩ | ⟨rfl, rfl⟩ | ⟨rfl, rfl⟩ | ⟨rfl, rfl⟩ | ⟨rfl, rfl⟩ | ⟨rfl, rfl⟩ | ⟨rfl, rfl⟩
-  · -- ==
-    obtain rfl := arity_eq hl (a := .exactly 2) (by decide)
-    obtain ⟨a, b, rfl⟩ := len2 items (by simpa [Arity.isValidLen] using hn)
-    unfold execEager
-    simp [rs, abstract_eq]
-  · -- !=
-    obtain rfl := arity_eq hl (a := .exactly 2) (by decide)
-    obtain ⟨a, b, rfl⟩ := len2 items (by simpa [Arity.isValidLen] using hn)
-    unfold execEager
-    simp [rs, abstract_ne]
-  · -- ===
-    obtain rfl := arity_eq hl (a := .exactly 2) (by decide)
-    obtain ⟨a, b, rfl⟩ := len2 items (by simpa [Arity.isValidLen] using hn)
-    unfold execEager
-    simp [rs, strict_eq]
-  · -- !==
-    obtain rfl := arity_eq hl (a := .exactly 2) (by decide)
-    obtain ⟨a, b, rfl⟩ := len2 items (by simpa [Arity.isValidLen] using hn)
-    unfold execEager
-    simp [rs, strict_ne]
-  · -- !
-    obtain rfl := arity_eq hl (a := .unary) (by decide)
-    obtain ⟨a, rfl⟩ := len1 items (by simpa [Arity.isValidLen] using hn)
-    unfold execEager
-    simp [rs, truthy]
-  · -- !!
-    obtain rfl := arity_eq hl (a := .unary) (by decide)
-    obtain ⟨a, rfl⟩ := len1 items (by simpa [Arity.isValidLen] using hn)
-    unfold execEager
-    simp [rs, truthy]
-  · -- <
-    obtain rfl := arity_eq hl (a := .variadic 2 4) (by decide)
-    simp only [Arity.isValidLen, Bool.and_eq_true, decide_eq_true_eq] at hn
-    rw [num_lt items hn.1]; unfold execEager; simp
-  · -- <=
-    obtain rfl := arity_eq hl (a := .variadic 2 4) (by decide)
-    simp only [Arity.isValidLen, Bool.and_eq_true, decide_eq_true_eq] at hn
-    rw [num_lte items hn.1]; unfold execEager; simp
-  · -- >
-    obtain rfl := arity_eq hl (a := .variadic 2 4) (by decide)
-    simp only [Arity.isValidLen, Bool.and_eq_true, decide_eq_true_eq] at hn
-    rw [num_gt items hn.1]; unfold execEager; simp
-  · -- >=
-    obtain rfl := arity_eq hl (a := .variadic 2 4) (by decide)
-    simp only [Arity.isValidLen, Bool.and_eq_true, decide_eq_true_eq] at hn
-    rw [num_gte items hn.1]; unfold execEager; simp
-  · -- +
-    rw [numResult_tie, parse_float_add]; unfold execEager; simp
-  · -- -
-    obtain rfl := arity_eq hl (a := .variadic 1 3) (by decide)
-    simp only [Arity.isValidLen, Bool.and_eq_true, decide_eq_true_eq] at hn
-    exact num_minus items hn.1
-  · -- *
-    rw [numResult_tie, parse_float_mul]; unfold execEager; simp
-  · -- /
-    obtain rfl := arity_eq hl (a := .exactly 2) (by decide)
-    obtain ⟨a, b, rfl⟩ := len2 items (by simpa [Arity.isValidLen] using hn)
-    rw [numResult_tie]
-    unfold execEager
-    simp [rs, abstract_div]
-  · -- %
-    obtain rfl := arity_eq hl (a := .exactly 2) (by decide)
-    obtain ⟨a, b, rfl⟩ := len2 items (by simpa [Arity.isValidLen] using hn)
-    rw [numResult_tie]
-    unfold execEager
-    simp [rs, abstract_mod]
-  · -- max
-    rw [numResult_tie, abstract_max]; unfold execEager; simp
-  · -- min
-    rw [numResult_tie, abstract_min]; unfold execEager; simp
-  · -- merge
-    rw [merge]; unfold execEager; simp [rs]
-  · -- in
-    obtain rfl := arity_eq hl (a := .exactly 2) (by decide)
-    obtain ⟨a, b, rfl⟩ := len2 items (by simpa [Arity.isValidLen] using hn)
-    rw [in_]
-    unfold execEager
-    cases hi : ArrOp.in_ a b <;> simp [rs, hi]
-  · -- substr
-    obtain rfl := arity_eq hl (a := .variadic 2 4) (by decide)
-    simp only [Arity.isValidLen, Bool.and_eq_true, decide_eq_true_eq] at hn
-    rcases len23 items hn.1 hn.2 with ⟨a, b, rfl⟩ | ⟨a, b, c, rfl⟩
-    · rw [substr2]; unfold execEager; simp [rs]
-    · rw [substr3]; unfold execEager; simp [rs]
+  simp only [Gen.eagerTable, List.mem_cons, Prod.mk.injEq, List.not_mem_nil] at hk
+  -- `hk : (k = key₁ ∧ f = fn₁) ∨ … ∨ (k = keyₙ ∧ f = fnₙ) ∨ False`, whatever `n` and the order
+  repeat' (rcases hk with ⟨rfl, rfl⟩ | hk)
+  all_goals
+    table_arity hl
+    table_operands items hn
+    all_goals eager_row
 
 theorem eager_table_log (k : Str) (f : List Json → M Json) (hk : (k, f) ∈ Gen.eagerTableM) (ar : Arity) (hl : lookupOp k = some (.eager, ar))
     (items : List Json) (hn : ar.isValidLen items.length = true) : f items = execEager k items := by
-  simp only [Gen.eagerTableM, List.mem_cons, Prod.mk.injEq, List.not_mem_nil, or_false] at hk
-  obtain ⟨rfl, rfl⟩ := hk
-  obtain rfl := arity_eq hl (a := .unary) (by decide)
-  exact op_log items (by simp [Arity.isValidLen] at hn; omega)
+  simp only [Gen.eagerTableM, List.mem_cons, Prod.mk.injEq, List.not_mem_nil] at hk
+  -- `hk : (k = key₁ ∧ f = fn₁) ∨ … ∨ (k = keyₙ ∧ f = fnₙ) ∨ False`, whatever `n` and the order
+  repeat' (rcases hk with ⟨rfl, rfl⟩ | hk)
+  all_goals
+    table_arity hl
+    table_operands items hn
+    all_goals first
+      | exact op_log _ (by simp)
+      | simp [op_log]
 
 /-- every lazy operator: the function the table binds to it is the model's `run` on a rule with that operator -/
 theorem lazy_table (k : Str) (f : Json → List Json → M Json) (hk : (k, f) ∈ Gen.lazyTable) (ar : Arity) (hl : lookupOp k = some (.lazy, ar))
     (d : Json) (xs : List Json) (hn : ar.isValidLen xs.length = true) : f d xs = run (.obj [(k, .arr xs)]) d := by
-  simp only [Gen.lazyTable, List.mem_cons, Prod.mk.injEq, List.not_mem_nil, or_false] at hk
-  rcases hk with ⟨rfl, rfl⟩ | ⟨rfl, rfl⟩ | ⟨rfl, rfl⟩ | ⟨rfl, rfl⟩ | ⟨rfl, rfl⟩ | ⟨rfl, rfl⟩ | ⟨rfl, rfl⟩ | ⟨rfl, rfl⟩ | ⟨rfl, rfl⟩
-    | ⟨rfl, rfl⟩
-  · exact op_if d xs
-  · rw [op_if, Lemmas.C05.run_if_arr _ (.inl rfl), Lemmas.C05.run_if_arr _ (.inr rfl)]
-  · exact op_or d xs
-  · exact op_and d xs
-  · obtain rfl := arity_eq hl (a := .exactly 2) (by decide)
-    exact op_map d xs (by simp [Arity.isValidLen] at hn; omega)
-  · obtain rfl := arity_eq hl (a := .exactly 2) (by decide)
-    exact op_filter d xs (by simp [Arity.isValidLen] at hn; omega)
-  · obtain rfl := arity_eq hl (a := .exactly 3) (by decide)
-    exact op_reduce d xs (by simp [Arity.isValidLen] at hn; omega)
-  · obtain rfl := arity_eq hl (a := .exactly 2) (by decide)
-    exact op_all d xs (by simp [Arity.isValidLen] at hn; omega)
-  · obtain rfl := arity_eq hl (a := .exactly 2) (by decide)
-    exact op_some d xs (by simp [Arity.isValidLen] at hn; omega)
-  · obtain rfl := arity_eq hl (a := .exactly 2) (by decide)
-    exact op_none d xs (by simp [Arity.isValidLen] at hn; omega)
+  simp only [Gen.lazyTable, List.mem_cons, Prod.mk.injEq, List.not_mem_nil] at hk
+  -- `hk : (k = key₁ ∧ f = fn₁) ∨ … ∨ (k = keyₙ ∧ f = fnₙ) ∨ False`, whatever `n` and the order
+  repeat' (rcases hk with ⟨rfl, rfl⟩ | hk)
+  all_goals
+    table_arity hl
+    -- what the arity says about the number of operands, in the form the tie theorems ask for
+    have hlen : ∀ n, (∀ m, Arity.isValidLen _ m = true → n ≤ m) → n ≤ xs.length := fun n h => h _ hn
+    first
+      | exact op_if d xs
+      | exact op_or d xs
+      | exact op_and d xs
+      | exact op_map d xs (hlen 2 (by intro m; simp [Arity.isValidLen]; omega))
+      | exact op_filter d xs (hlen 2 (by intro m; simp [Arity.isValidLen]; omega))
+      | exact op_reduce d xs (hlen 3 (by intro m; simp [Arity.isValidLen]; omega))
+      | exact op_all d xs (hlen 2 (by intro m; simp [Arity.isValidLen]; omega))
+      | exact op_some d xs (hlen 2 (by intro m; simp [Arity.isValidLen]; omega))
+      | exact op_none d xs (hlen 2 (by intro m; simp [Arity.isValidLen]; omega))
+      | rw [op_if, Lemmas.C05.run_if_arr _ (.inl rfl), Lemmas.C05.run_if_arr _ (.inr rfl)]
 
-theorem data_table (k : Str) (f : Json → List Json → M Json) (hk : (k, f) ∈ Gen.dataTable) (d : Json) (items : List Json) : f d items = execData k d items := by
-  simp only [Gen.dataTable, List.mem_cons, Prod.mk.injEq, List.not_mem_nil, or_false] at hk
-  obtain ⟨rfl, rfl⟩ := hk
-  rw [op_var]; unfold execData; simp
+theorem data_table (k : Str) (f : Json → List Json → M Json) (hk : (k, f) ∈ Gen.dataTable) (ar : Arity) (hl : lookupOp k = some (.data, ar))
+    (d : Json) (items : List Json) (hn : ar.isValidLen items.length = true) : f d items = execData k d items := by
+  simp only [Gen.dataTable, List.mem_cons, Prod.mk.injEq, List.not_mem_nil] at hk
+  -- `hk : (k = key₁ ∧ f = fn₁) ∨ … ∨ (k = keyₙ ∧ f = fnₙ) ∨ False`, whatever `n` and the order
+  repeat' (rcases hk with ⟨rfl, rfl⟩ | hk)
+  all_goals
+    table_arity hl
+    have hlen : ∀ n, (∀ m, Arity.isValidLen _ m = true → n ≤ m) → n ≤ items.length := fun n h => h _ hn
+    first
+      | (rw [op_var]; unfold execData; simp)
+      | (rw [op_missing]; unfold execData; simp)
+      | (rw [op_missing_some d items (hlen 2 (by intro m; simp [Arity.isValidLen]; omega))]; unfold execData; simp)
 
-/-- the translated tables name exactly these operators (the remaining ones - `cat`, `missing`, `missing_some` - are bound to
-functions outside the translated subset and stay tied by the correspondence streams) -/
-theorem table_keys : Gen.eagerTable.map Prod.fst = ["==", "!=", "===", "!==", "!", "!!", "<", "<=", ">", ">=", "+", "-", "*", "/", "%", "max", "min", "merge", "in", "substr"].map String.toList
-    ∧ Gen.eagerTableM.map Prod.fst = ["log".toList]
-    ∧ Gen.lazyTable.map Prod.fst = ["if", "?:", "or", "and", "map", "filter", "reduce", "all", "some", "none"].map String.toList
-    ∧ Gen.dataTable.map Prod.fst = ["var".toList] := by
-  refine ⟨rfl, rfl, rfl, rfl⟩
+
+/-- the order- and count-insensitive part of `table_keys`: every key of a translated table is one of the operators the model
+knows for that table, and no key occurs twice. (Unlike `table_keys` - `JL/Tie/table_keys.lean` - this stays true when a row drops out of the
+translated subset because its function is no longer one the translator reads.) -/
+theorem table_keys_sub :
+    ((Gen.eagerTable.map Prod.fst).all (fun k => (["==", "!=", "===", "!==", "!", "!!", "<", "<=", ">", ">=", "+", "-", "*", "/", "%", "max", "min", "merge", "in", "cat", "substr"].map String.toList).contains k) = true
+      ∧ (Gen.eagerTable.map Prod.fst).Nodup)
+    ∧ ((Gen.eagerTableM.map Prod.fst).all (fun k => ["log".toList].contains k) = true ∧ (Gen.eagerTableM.map Prod.fst).Nodup)
+    ∧ ((Gen.lazyTable.map Prod.fst).all (fun k => (["if", "?:", "or", "and", "map", "filter", "reduce", "all", "some", "none"].map String.toList).contains k) = true
+      ∧ (Gen.lazyTable.map Prod.fst).Nodup)
+    ∧ ((Gen.dataTable.map Prod.fst).all (fun k => (["var", "missing", "missing_some"].map String.toList).contains k) = true ∧ (Gen.dataTable.map Prod.fst).Nodup) := by
+  refine ⟨⟨?_, ?_⟩, ⟨?_, ?_⟩, ⟨?_, ?_⟩, ⟨?_, ?_⟩⟩ <;> decide
+
+/- `table_keys` (the translated tables name exactly the expected operators, in any order) is in `JL/Tie/table_keys.lean`, on its
+own: it is the one statement that a row dropping out of the translated subset must break, and it must not take the
+statements about the rows down with it. -/
 
 end JL.Tie
